@@ -126,7 +126,7 @@ def report(prop, args, seed, t0, results, cmod, bounded):
         for cname, sts in cover_seen.items():
             if "covered" not in sts and "cover-unknown" not in sts:
                 vacuous.append(cname)
-        per_unit.append({"unit": r["instance"], "paths": r["paths"], "obligations": u_ob, "discharged": u_dis,
+        per_unit.append({"unit": r["instance"], "name": r["unit"], "paths": r["paths"], "obligations": u_ob, "discharged": u_dis,
                          "wall_s": r["wall_s"]})
     # known findings: a failed obligation listed in known_findings.json (by obligation-name prefix) is reported as
     # KNOWN-FINDING; everything else is a violation
@@ -170,7 +170,18 @@ def report(prop, args, seed, t0, results, cmod, bounded):
         exit_code = 2
     if errors or vacuous or (n_ob == 0 and not undecided):
         exit_code = 3 if not lines else exit_code
-    extra = {"units": per_unit, "undecided": [f"{a}: {b}" for a, b in undecided][:20],
+    by_backend = {}
+    for r in results:
+        for ob in r["obligations"]:
+            if ob["kind"] in ("cover", "canary") or ob["status"] != "discharged":
+                continue
+            by_backend[ob["backend"]] = by_backend.get(ob["backend"], 0) + 1
+    kinds = {u.name: u.kind for u in U.REGISTRY.get(prop, [])}
+    for pu in per_unit:
+        pu["kind"] = kinds.get(pu.pop("name"), "function")
+    extra = {"discharged_by_backend": by_backend,
+             "bounded_units": sorted({pu["unit"] for pu in per_unit if pu["kind"] == "bounded"}),
+             "units": per_unit, "undecided": [f"{a}: {b}" for a, b in undecided][:20],
              "checker_errors": [f"{a}: {b}" for a, b in errors][:5], "vacuous": vacuous[:10],
              "covers": covers, "canaries": canaries, "solver_s": round(solver_ms / 1000, 3),
              "known_findings_hit": sorted(printed), "bounded": bounded}
@@ -269,7 +280,9 @@ def _write_evidence(prop, tier, seed, t0, results, cmod, n_ob=0, n_dis=0, sample
     if extra:
         cov.update(extra)
     ev = {"property_id": prop, "tier": tier if tier in ("quick", "thorough") else "quick", "seed": seed, "level": level,
-          "coverage": cov, "assumptions": sorted(trusted) + list(getattr(cmod, "ASSUMPTIONS", [])),
+          "coverage": cov,
+          "assumptions": sorted(set(sorted(trusted) + list(getattr(cmod, "TRUSTED", [])) + list(getattr(cmod, "ASSUMPTIONS", []))
+                                    + ["float64 treated as mathematical reals", "python int treated as mathematical integers", "termination not proved"])),
           "wall_s": round(time.time() - t0, 2), "violations": violations}
     os.makedirs(os.path.join(OUT, "evidence"), exist_ok=True)
     with open(os.path.join(OUT, "evidence", f"{prop}.json"), "w") as f:
